@@ -670,6 +670,30 @@ def worker(rec, shard, nshards, thorough, seed):
                 elif got != base3:
                     rec.violation("C07:row-order-changes-the-issues:delayed-group", file=tsv, in_time_order=base3, this_order=got)
                     break
+        # F11 late recordings: distinct onsets stay distinct time points however large they are (rows valid one by one, but
+        # clashing if joined: the same tag twice, an Onset and its Offset); the issues are those of the same rows near zero
+        late_rows = ["Red", "Red", "(Def/A, Onset)", "(Def/A, Offset)", "(Def/A, Onset)", "Blue, (Delay/0.0001 s, (Blue))"]
+        for step in (0.0001, 0.001):
+            base_late = None
+            for t0 in (0.0, 5000.0, 1.0e5, 1.0e6, 1.7e9):
+                for order in ("file", "reversed"):
+                    idx = list(range(len(late_rows)))
+                    if order == "reversed":
+                        idx.reverse()
+                    tsv = "onset\tHED\n" + "".join(f"{t0 + (i + 1) * step:.4f}\t{late_rows[i]}\n" for i in idx)
+                    rec.n("evaluations")
+                    rec.n("distinct_nontrivial")
+                    try:
+                        issues = validate_file(env, tsv, "{}")
+                    except Exception as e:
+                        rec.violation(f"C07:raises:{type(e).__name__}:late-onsets", file=tsv, error=repr(e)[:300])
+                        continue
+                    got = sorted((i["code"], idx[i["ec_row"] - 2]) for i in issues if i["severity"] == ERR and i.get("ec_row"))
+                    if base_late is None:
+                        base_late = got
+                        rec.outcome("late-onsets:" + ("clean" if not got else "errors"))
+                    elif got != base_late:
+                        rec.violation("C07:issues-depend-on-the-size-of-the-onsets", file=tsv, near_zero=base_late, got=got)
         # four rows, a short delay: shifting the group from another row's onset moves it across its partner
         for rows4 in ([("5", "Green"), ("10", "(Def/A, Onset)"), ("20", "(Def/A, Offset, Delay/2 s)"), ("30", "Blue")],
                       [("5", "Green"), ("10", "(Def/A, Offset, Delay/2 s)"), ("20", "(Def/A, Onset)"), ("30", "(Def/A, Offset)")],
